@@ -4,6 +4,8 @@ import (
 	"context"
 	"fmt"
 
+	"github.com/go-logr/logr"
+	apimachineryerrors "k8s.io/apimachinery/pkg/api/errors"
 	"k8s.io/apimachinery/pkg/runtime"
 	ctrl "sigs.k8s.io/controller-runtime"
 	"sigs.k8s.io/controller-runtime/pkg/client"
@@ -66,4 +68,64 @@ func (r *objectSliceLoadReconciler) Reconcile(
 	}
 	objectSet.SetPhases(phases)
 	return
+}
+
+// sliceLoadingTeardownHandler inlines the objects that live in ObjectSlices
+// before handing the ObjectSet to the actual teardown handler.
+//
+// Deletion and archival are handled before the reconciler loop runs,
+// i.e. before objectSliceLoadReconciler had a chance to load the slices.
+// Without this step an ObjectSet referencing ObjectSlices would be torn down
+// looking at its inline objects only: objects within slices would not be
+// deleted in phase order on deletion and not at all on archival.
+type sliceLoadingTeardownHandler struct {
+	loader *objectSliceLoadReconciler
+	next   teardownHandler
+}
+
+func (h *sliceLoadingTeardownHandler) Teardown(
+	ctx context.Context, objectSet adapters.ObjectSetAccessor,
+) (cleanupDone bool, err error) {
+	if err := h.loader.loadForTeardown(ctx, objectSet); err != nil {
+		return false, err
+	}
+	return h.next.Teardown(ctx, objectSet)
+}
+
+// loadForTeardown inlines all objects of referenced ObjectSlices into the ObjectSet, like Reconcile,
+// but strictly read-only: no owner references are added to slices of an ObjectSet that is going away.
+//
+// An ObjectSlice that no longer exists is skipped instead of failing the teardown:
+// its objects can not be known anymore and returning an error would keep the finalizer
+// on the ObjectSet forever. An ObjectSet only reconciles the objects of a slice after adding itself
+// as owner to that slice, which keeps the slice alive until the ObjectSet is gone,
+// so a missing slice was either never loaded by this ObjectSet or has been removed by a third party.
+func (r *objectSliceLoadReconciler) loadForTeardown(
+	ctx context.Context, objectSet adapters.ObjectSetAccessor,
+) error {
+	log := logr.FromContextOrDiscard(ctx)
+
+	phases := objectSet.GetPhases()
+	for i := range phases {
+		phase := &phases[i]
+		for _, slice := range phase.Slices {
+			objSlice := r.newObjectSlice(r.scheme)
+			err := r.client.Get(ctx, client.ObjectKey{
+				Name:      slice,
+				Namespace: objectSet.ClientObject().GetNamespace(),
+			}, objSlice.ClientObject())
+			if apimachineryerrors.IsNotFound(err) {
+				log.Info("ObjectSlice is gone, skipping its objects during teardown",
+					"ObjectSlice", slice, "phase", phase.Name)
+				continue
+			}
+			if err != nil {
+				return fmt.Errorf("getting ObjectSlice for teardown: %w", err)
+			}
+
+			phase.Objects = append(phase.Objects, objSlice.GetObjects()...)
+		}
+	}
+	objectSet.SetPhases(phases)
+	return nil
 }
